@@ -62,7 +62,7 @@ claim("C10", "exploration",
       "Links the fclones library built from /repo (verif cfg re-exports Arg only). Absolute paths, non-empty NUL-free components and arguments. A cut removing only the final newline may be accepted.",
       "bounded-exhaustive enumeration + proptest random generation; round-trip and truncation oracles; thorough tier adds a coverage-guided libFuzzer campaign (fuzz_report, same oracles inside the target)", "DESIGN.md 4 C10")
 claim("C16", "exploration",
-      "In-process: every glob of <=3/<=4 tokens over the 19-token alphabet against all 2800 paths of <=4 components, case-sensitive and ignore-case, Pattern::glob vs the harness' reference matcher (README Path Globbing); random 7-token globs and grammar-generated nested groups with metacharacter literals; conservativeness of PathSelector::matches_dir for every ancestor of every selected path under random include/exclude sets (absolute and base-dir-relative, base dirs containing . - + ( ) $ non-ASCII).",
+      "In-process: every glob of <=3/<=4 tokens over the 19-token alphabet against all 4680 paths of <=4 components (one component contains a line feed), case-sensitive and ignore-case, Pattern::glob vs the harness' reference matcher (README Path Globbing); random 7-token globs and grammar-generated nested groups with metacharacter literals; conservativeness of PathSelector::matches_dir for every ancestor of every selected path under random include/exclude sets (absolute and base-dir-relative, base dirs containing . - + ( ) $ non-ASCII).",
       "One open known finding (non-ASCII text in the literal prefix of an include pattern prunes ancestors; cannot be repaired without contradicting an existing unit test). !( ) not generated.",
       "bounded-exhaustive enumeration + proptest random generation; differential oracle against a reference glob matcher, and a conservativeness invariant; thorough tier adds a coverage-guided libFuzzer campaign (fuzz_glob, same oracles inside the target)", "DESIGN.md 4 C16")
 
